@@ -29,6 +29,79 @@ def observe(lines, obs):
     return out
 
 
+def same_type(obs, exp):
+    """observed type s-expression against the expected one; the number of the anonymous scalar set is not compared"""
+    if isinstance(exp, list) and isinstance(obs, list):
+        return len(exp) == len(obs) and all(same_type(o, e) for o, e in zip(obs, exp))
+    if exp == '#':
+        return isinstance(obs, str) and obs.startswith('#scalarset')
+    return obs == exp
+
+
+def qualified(run, thorough):
+    """process-qualified names: the member index and the substituted type of every P.x against the extracted model of expr_dot"""
+    rng = run.rng
+    stats = dict(qualified_uses=0, qualified_non_members=0, processes=0, chain_depths={})
+    drv, err = vlib.build_extract('dot', 'Extract_Dot.v', 'drv_dot') if os.path.exists(os.path.join(vlib.COQ, 'theories', 'DotProofs.vo')) else (None, 'DotProofs.vo missing')
+    if drv is None:
+        run.tie_broken('extraction of the model of expr_dot', err)
+        return stats
+    n = 400 if thorough else 60
+    cases, lines = [], []
+    for k in range(n):
+        g = scopegen.DotGen(rng)
+        xml, ls, queries, ids = g.model()
+        cases.append((xml, queries, g.names, len(lines), len(ls)))
+        lines += ls
+    out = subprocess.run([drv], input='\n'.join(lines) + '\n', stdout=subprocess.PIPE, universal_newlines=True).stdout.split('\n')
+    j = vlib.Job()
+    for k, (xml, queries, names, _, _) in enumerate(cases):
+        c = j.case('q%d' % k, fork=True).cmd('BIND 1').model('xml', xml).dump('errors')
+        for P, qs in queries:
+            for m, text in qs:
+                c.query(text, rt=False)
+        c.end()
+    rr = vlib.run_jobs(j)
+    for k, (xml, queries, names, l0, nl) in enumerate(cases):
+        c = rr['q%d' % k]
+        if c['status'] != 'ok':
+            run.fail('parser crashed on a model with qualified names (%s)' % c['status'], dict(xml=xml, status=c['status']), shape='crash')
+            continue
+        merrs = [l for l in c['cmds'][2][2] if l.startswith('error')]
+        if merrs:
+            run.tie_broken('a generated model with instantiation chains is rejected', dict(xml=xml[:3000], errors=merrs[:3]))
+            continue
+        qi = 3
+        for pi, (P, qs) in enumerate(queries):
+            res = out[l0 + pi].split(' ; ') if l0 + pi < len(out) else []
+            stats['processes'] += 1
+            d = len([1 for s, a in P['mapping']])
+            for (m, text), r in zip(qs, res):
+                cm = c['cmds'][qi][2]; qi += 1
+                exp = scopegen.tparse(r)
+                tree = next((l[5:] for l in cm if l.startswith('tree ')), None)
+                errs = [l for l in cm if l.startswith('error')]
+                if exp is None:
+                    stats['qualified_non_members'] += 1
+                    if not any('has_no_member_named %s' % m in l for l in errs):
+                        run.fail('%s.%s: %s is not declared in the template of %s but the name is %s' % (P['name'], m, m, P['name'], 'bound: ' + str(scopegen.dot_observed(tree))[:200] if tree else 'rejected with ' + str(errs[:1])),
+                                 dict(xml=xml, query=text, lines=cm[:4]), shape='qualified:non-member-bound')
+                    continue
+                stats['qualified_uses'] += 1
+                obs = scopegen.dot_observed(tree) if tree else []
+                if not obs:
+                    run.fail('%s.%s is a member of the template but the query is rejected: %s' % (P['name'], m, errs[:1]), dict(xml=xml, query=text, lines=cm[:4]), shape='qualified:member-rejected')
+                    continue
+                et = scopegen.dot_expected_type(exp[1], names, P['name'])
+                for (oi, ol, ot) in obs:
+                    if oi != exp[0] or ol != m:
+                        run.fail('%s.%s binds to member %d (%s); the declaration of %s in the template is member %d' % (P['name'], m, oi, ol, m, exp[0]), dict(xml=xml, query=text, tree=tree[:600]), shape='qualified:wrong-member')
+                    elif et is not None and not same_type(ot, et):
+                        run.fail('%s.%s has type %s; with the arguments of %s substituted the declared type is %s' % (P['name'], m, ot, P['name'], et), dict(xml=xml, query=text, observed=ot, expected=et, mapping=[(names[s], scopegen.bshow(a, names)) for s, a in P['mapping']]),
+                                 shape='qualified:wrong-type')
+    return stats
+
+
 def check(run):
     thorough = run.tier == 'thorough'
     rng = run.rng
@@ -81,6 +154,8 @@ def check(run):
             run.fail('%d uses have no declaration in scope but %d Unknown_identifier diagnostics were reported' % (S.count('-'), unknown), dict(xml=xml, tree=tree, expected=S, errors=errs[:5]), shape='unknown-count')
         if len(samples) < 1 and len(xml) < 1800:
             samples.append(dict(tree=tree, xml=xml, bindings=S))
+    dstats = qualified(run, thorough)
+    stats.update(dstats)
     if mism:
         run.tie_broken('scope generator / dump reader out of step', mism[:3] + [dict(total=len(mism))])
     run.cov.update(evaluations=n, distinct_nontrivial=len(set(c[1] for c in cases)), traces_validated_against_impl=n,
@@ -89,4 +164,4 @@ def check(run):
                         'the binding of every use read from the dump (name@frame:type, builder stage) must equal the specification run on the same tree by the extracted Coq model, and the number of Unknown_identifier diagnostics the number of unbound uses',
                    samples=samples, **stats)
     run.cov['trusted_base'] += ['hand model Scope.v of frame_t (symbols, mapping, parent chain) and of the builder\'s push / pop discipline', 'tools/scopegen.py (generator, renderer, dump reader)', 'drv_scope.ml', 'utapdump BIND']
-    return run.finish('proof', assumptions=['process-qualified names in queries (expr_dot) are not modelled', 'on recovered parses a leaked frame changes bindings: known finding C16-frame-leak'])
+    return run.finish('proof', assumptions=['the instance mapping is a std::map ordered by symbol address; the model applies it innermost template first, which is the order observed (DotProofs.order_matters shows the other order leaves parameters unsubstituted)', 'on recovered parses a leaked frame changes bindings: known finding C16-frame-leak'])
